@@ -120,7 +120,10 @@ Theorem C05_impl_reads_instances :
           wit_ids = true /\
   forallb (fun id => outcome_eqb (scale_fetch ok_sp raw_dec raw_dec (dir_of 1 ok_files) id) (ok_payload id))
           ok_ids = true.
-Proof. split; [exact (proj2 wit_other_chunks) | exact (proj1 (proj2 (proj2 (proj2 (proj2 guard_example)))))]. Qed.
+Proof.
+  split; [exact (proj2 (proj2 (proj2 (proj2 (proj2 (proj2 (proj2 old_witness_reads)))))))
+         | exact (proj1 (proj2 (proj2 (proj2 (proj2 guard_example)))))].
+Qed.
 Print Assumptions C05_impl_reads_instances.
 
 (* (2) order_independent, file level, for EVERY grid / parameter triple with
